@@ -4,6 +4,7 @@ import (
 	"encoding/json"
 	"fmt"
 	"hash/fnv"
+	"math"
 	"math/rand"
 	"os"
 	"path/filepath"
@@ -466,6 +467,29 @@ func (r *runner) judge(out *outcome, l layoutSpec, q *query, res *node.QueryResu
 	return out
 }
 
+// bucketWithoutObservations reports whether, for the group of the statement, some bucket field of the histogram metric has
+// no observation in the range (from the model).
+func (r *runner) bucketWithoutObservations(q *query, group string) bool {
+	ms := r.ds.metric(q.Q.Metric)
+	if ms == nil || len(ms.Bounds) == 0 {
+		return false
+	}
+	bounds := append([]float64(nil), ms.Bounds...)
+	bounds = append(bounds, math.Inf(1))
+	for _, ub := range bounds {
+		q2 := *q.full
+		q2.Items = []node.SelectItem{{Expr: node.FieldRef{Name: node.BucketFieldName(ub)}}}
+		exp := r.model.Eval(&q2)
+		if exp.ErrorExpected != "" {
+			return true // the bucket field was never written at all
+		}
+		if s := exp.Series[group]; s == nil || len(s.Items) == 0 {
+			return true
+		}
+	}
+	return false
+}
+
 // lenientOnly reports whether every value the model expects for the group comes from a binary expression with an operand
 // without data (lindb emits such a value with the operand as 0 or drops it).
 func lenientOnly(s *node.ExpSeries) bool {
@@ -520,6 +544,21 @@ func (r *runner) refine(l layoutSpec, q *query, out *outcome, res *node.QueryRes
 			out.Class = "C12/intermediate/interval-recomputed-from-the-truncated-range"
 			out.Problem = fmt.Sprintf("raw range %ds is below the %dh step of the automatic interval, the truncated range reaches it: the intermediate node re-plans with interval %ds, the result equals the model at that interval; %s",
 				(q.Q.End-q.Q.Start)/1000, (q.Q.End/slotMs*slotMs-q.Q.Start/slotMs*slotMs)/hourMs, iv/1000, out.Problem)
+			return
+		}
+	}
+	// (a2) quantile of a histogram of which some bucket has no observation in the range/group: the leaf sends the bucket
+	// field as an empty segment or not at all (depending on what else lives in the shard), and the estimate differs
+	if len(diffs) > 0 && !strings.HasPrefix(out.Class, "C12/order-by-limit") && len(q.exp.ZeroFill) > 0 {
+		all := true
+		for _, d := range diffs {
+			if !q.exp.ZeroFill[d.Item] || !r.bucketWithoutObservations(q, d.Group) {
+				all = false
+				break
+			}
+		}
+		if all {
+			out.Class = "C12/no-data/quantile-over-a-bucket-without-observations"
 			return
 		}
 	}
@@ -702,6 +741,10 @@ func (r *runner) classifyIsolated(l layoutSpec, q *query, o *outcome, holdings [
 			kind = errKind(fmt.Errorf("%s", le[strings.Index(le, ": ")+2:]))
 		}
 	}
+	if kind == "" && len(dropped) == len(l.Leaves) && strings.HasPrefix(o.Class, "C12/error-instead-of-empty-answer/") {
+		o.Class = "C12/isolated-metadata/every-leaf-answers-not-found/empty-answer-becomes-an-error"
+		return
+	}
 	if kind == "" {
 		return
 	}
@@ -815,7 +858,7 @@ func (r *runner) checkSplit(l layoutSpec, q *query, cl *cluster, msgs []*node.Ms
 	if base != nil && base.Err == "" && !q.Limited && !q.AllFields && len(q.Q.GroupBy) > 0 {
 		missing, extra := 0, 0
 		for g := range base.Full {
-			if !sent[g] {
+			if s := q.exp.Series[g]; !sent[g] && s != nil && !lenientOnly(s) {
 				missing++
 			}
 		}
@@ -860,6 +903,34 @@ func (r *runner) witness(l layoutSpec, q *query, outs []*outcome) map[string]int
 	}
 	w["series"] = series
 	return w
+}
+
+// modelDiffs compares a result of the full form of a statement with the naive model. Where a series of a histogram metric
+// never observes one of the buckets, the model's quantile (defined over the buckets that have data, as validated by C11 for
+// histograms whose buckets all have observations) is not the language's definition: those values are only compared between
+// layouts, not with the model.
+func (r *runner) modelDiffs(q *query, res *node.QueryResult) []node.Diff {
+	diffs := node.Compare(q.exp, res.ResultSet, q.Q.GroupBy, node.CompareOptions{})
+	sparse := false
+	if ms := r.ds.metric(q.Q.Metric); ms != nil {
+		for _, s := range ms.Series {
+			if len(s.EmptyBuckets) > 0 {
+				sparse = true
+			}
+		}
+	}
+	if !sparse {
+		return diffs
+	}
+	kept := diffs[:0]
+	for _, d := range diffs {
+		if q.exp.ZeroFill[d.Item] && d.Item != "" {
+			r.res.count("quantile_values_of_sparse_histograms_not_compared_with_the_model", 1)
+			continue
+		}
+		kept = append(kept, d)
+	}
+	return kept
 }
 
 // emptyGroups counts the groups of the statement that exist (series of the metric matching the condition and carrying
@@ -951,6 +1022,38 @@ func (r *runner) runLayout(l layoutSpec, iso *isoPlacement) {
 					o.Class = "C12/answer-instead-of-error/" + l.kind() + "/on-every-attempt"
 				} else {
 					r.res.count("lost_errors_that_did_not_repeat_on_retry", 1)
+				}
+			}
+			if strings.HasPrefix(o.Class, "C12/result-differs/") || strings.HasPrefix(o.Class, "C12/empty-instead-of-answer/") {
+				// a difference must repeat under the same delivery order; one that does not is not a matter of the layout
+				again := r.runOne(cl, l, q, perm, strict)
+				r.res.count("runs", 1)
+				if again.recreate {
+					cl.close()
+					cl = r.newCluster(l, iso)
+				}
+				if again.Class != o.Class && !again.TimedOut && !again.Stuck {
+					same := true
+					a, b := map[string]string{}, map[string]string{}
+					for k, v := range o.LeafDigests {
+						a[k[:strings.Index(k, "#")]] = v
+					}
+					for k, v := range again.LeafDigests {
+						b[k[:strings.Index(k, "#")]] = v
+					}
+					for k, v := range a {
+						if b[k] != v {
+							same = false
+							o.Problem = fmt.Sprintf("leaf answer %s carried %q in this run and %q when the run was repeated with the same delivery order (verdict of the repetition: %q); %s", k, v, b[k], again.Class, o.Problem)
+							break
+						}
+					}
+					if same {
+						o.Class += "/not-repeated-with-the-same-leaf-answers-and-delivery-order"
+					} else {
+						o.Class = "C12/leaf-answer-differs-between-runs/" + l.kind()
+						r.res.count("leaf_answers_that_differ_between_two_runs_of_one_statement", 1)
+					}
 				}
 			}
 			if !exhaustive && l.Intermediates <= 1 {
@@ -1122,13 +1225,13 @@ func (r *runner) runBaseline() map[int]*baseEntry {
 				map[string]interface{}{"sql": q.FullSQL, "seed": r.seed, "data_set": r.ds.Index})
 			be.Skip = "reference differs from the model"
 		default:
-			diffs := node.Compare(q.exp, full.ResultSet, q.Q.GroupBy, node.CompareOptions{})
+			diffs := r.modelDiffs(q, full)
 			if len(diffs) > 0 {
 				// a difference that does not repeat is the leaf's business (see C12/leaf-answer-differs-between-runs)
 				again := cl.c.Query(q.FullSQL)
 				r.res.Evals++
 				if again.Err == nil && !again.Stuck && !again.TimedOut {
-					if d2 := node.Compare(q.exp, again.ResultSet, q.Q.GroupBy, node.CompareOptions{}); len(d2) == 0 {
+					if d2 := r.modelDiffs(q, again); len(d2) == 0 {
 						r.res.violation("C12/leaf-answer-differs-between-runs/reference",
 							fmt.Sprintf("data set %d: %s on one shard, one leaf differed from the naive model once (%s) and equals it when repeated", r.ds.Index, q.FullSQL, diffs[0]), nil)
 						full, diffs = again, nil
